@@ -147,6 +147,8 @@ def run_worker(job, r):
     rng = random.Random(seed)
     key = rng.choice([b'anon', b'k', b'secret key with spaces'.replace(b' ', b'_'), bytes(rng.randrange(33, 127) for _ in range(rng.choice([1, 63, 64, 65, 200])))])
     key = bytes(c for c in key if c not in b' \t') or b'k'
+    if key == b'-':
+        key = b'k'          # a lone '-' is the harness' spelling of "no value"
     login = rng.choice(['anon', 'user.name', 'x'])
     version = rng.choice([2, 2, 1])
     alg = rng.choice([1, 1, 4, 5])
@@ -286,6 +288,11 @@ def run_worker(job, r):
             r.viol('request:%s:v%d:malformed' % (transport, version), 'reference server cannot parse the request: %s' % srv.bad_request, replay)
         if b == 'two-pdus-first-foreign' and transport.startswith('async') and rc == 0:
             b = 'honest'      # stream transports deliver every PDU; the second one is the authentic reply for this request
+        if b == 'garbled' and version == 1 and rc == 0 and sig and srv.expected is not None and bytes.fromhex(sig) == srv.expected.enc():
+            # PDU version 1 authenticates header + payload only: a flipped flag bit in the outer TLV header or in the MAC element's
+            # header changes nothing that is delivered (C06 counts the same case as v1_unauthenticated_bit_same_content)
+            r.count('v1_unauthenticated_bit_same_content')
+            continue
         if b in HONEST:
             if rc != 0:
                 r.viol('sign:%s:v%d:%s:honest-reply-rejected' % (transport, version, b), 'honest reply rejected rc=%s %s' % (rc, q.get('msg') if q else ''), replay)
